@@ -91,7 +91,7 @@ function buildCase(rng) {
 
 export function* generate({ tier, seed }) {
   const rng = mulberry32(seed * 920419813 + 71);
-  const n = tier === 'quick' ? 4000 : 60000;
+  const n = tier === 'quick' ? 15000 : 400000;
   for (let i = 0; i < n; i++) {
     const c = buildCase(rng);
     if (!c.spec.props.length) continue;
@@ -162,7 +162,7 @@ export async function check(group, records) {
 
 export function meta({ tier }) {
   return {
-    rule: `Prop maps of 1-5 optional props (identifier, quoted, hyphenated, numeric, $ keys; value-typed or Function-typed) x per-prop default form (none, key-value with ${Object.keys(VAL_FORMS).length} value-expression kinds or ${Object.keys(FN_FORMS).length} function kinds, getter, method, async method, shorthand) x key spelling in the default (as in the type / the other spelling / computed literal) x extra keys x whole-default form (static literal, empty, identifier, literal with spread, computed identifier key, computed call key) x arrow/function setup. ${tier === 'quick' ? 4000 : 60000} cases. For every declared prop the default Vue would resolve (port of resolvePropValue, after the real mergeDefaults algorithm when the output calls it) is compared with the value of the written default object evaluated in the same module (functions compared by what they return).`,
+    rule: `Prop maps of 1-5 optional props (identifier, quoted, hyphenated, numeric, $ keys; value-typed or Function-typed) x per-prop default form (none, key-value with ${Object.keys(VAL_FORMS).length} value-expression kinds or ${Object.keys(FN_FORMS).length} function kinds, getter, method, async method, shorthand) x key spelling in the default (as in the type / the other spelling / computed literal) x extra keys x whole-default form (static literal, empty, identifier, literal with spread, computed identifier key, computed call key) x arrow/function setup. ${tier === 'quick' ? 15000 : 400000} cases. For every declared prop the default Vue would resolve (port of resolvePropValue, after the real mergeDefaults algorithm when the output calls it) is compared with the value of the written default object evaluated in the same module (functions compared by what they return).`,
     assumptions: ['function-valued defaults on props that are not Function-typed are not generated (a TS type error)', 'factories may be called any number of times'],
   };
 }
